@@ -1,1 +1,477 @@
+//! Reference interpreter for the G-AST: the executable statement of property C02
+//! (call-by-value, left-to-right, per-textual-call-site zero-initialised state).
+//! Shares no code with the compiler or runtimes under test.
 
+use crate::gens::core::*;
+use std::cell::RefCell;
+use std::collections::{BTreeSet, HashMap, VecDeque};
+use std::rc::Rc;
+
+#[derive(Clone)]
+pub enum V {
+    F(f64),
+    Tup(Vec<V>),
+    Rec(Vec<(String, V)>),
+    Clo(Rc<Clo>),
+    Fn(String),
+}
+
+pub struct Clo {
+    params: Vec<Param>,
+    body: Block,
+    env: Env,
+}
+
+type Cell = Rc<RefCell<V>>;
+
+#[derive(Clone)]
+pub struct Env(Option<Rc<EnvNode>>);
+pub struct EnvNode {
+    name: String,
+    cell: Cell,
+    next: Env,
+}
+impl Env {
+    fn empty() -> Env {
+        Env(None)
+    }
+    fn bind(&self, name: &str, v: V) -> Env {
+        Env(Some(Rc::new(EnvNode { name: name.to_string(), cell: Rc::new(RefCell::new(v)), next: self.clone() })))
+    }
+    fn lookup(&self, name: &str) -> Option<Cell> {
+        let mut cur = self;
+        while let Some(n) = &cur.0 {
+            if n.name == name {
+                return Some(n.cell.clone());
+            }
+            cur = &n.next;
+        }
+        None
+    }
+}
+
+enum StCell {
+    Feed(V),
+    Mem(f64),
+    /// most recent input first
+    Delay(VecDeque<f64>),
+}
+
+#[derive(Debug)]
+pub enum RefError {
+    Steps,
+    Internal(String),
+}
+
+pub struct Frame {
+    path: Vec<u32>,
+    self_val: Option<V>,
+}
+
+pub struct Interp<'p> {
+    prog: &'p Program,
+    genv: Env,
+    state: HashMap<Vec<u32>, StCell>,
+    pub now: u64,
+    pub samplerate: f64,
+    steps: u64,
+    pub max_steps: u64,
+    /// shapes of evaluation on which the statement of C02 is silent or on which the
+    /// two back ends are known to differ (dynamic quarantine predicates)
+    pub flags: BTreeSet<&'static str>,
+    /// state cells touched in the last sample: (path, kind)
+    pub touched: u64,
+}
+
+fn zero(t: &Ty) -> V {
+    match t {
+        Ty::F => V::F(0.0),
+        Ty::Tup(v) => V::Tup(v.iter().map(zero).collect()),
+        Ty::Rec(v) => V::Rec(v.iter().map(|(n, t)| (n.clone(), zero(t))).collect()),
+        Ty::Fun(..) => V::F(0.0),
+    }
+}
+
+pub fn flatten(v: &V, out: &mut Vec<f64>) {
+    match v {
+        V::F(x) => out.push(*x),
+        V::Tup(vs) => vs.iter().for_each(|x| flatten(x, out)),
+        V::Rec(vs) => vs.iter().for_each(|(_, x)| flatten(x, out)),
+        _ => out.push(f64::NAN),
+    }
+}
+
+impl<'p> Interp<'p> {
+    pub fn new(prog: &'p Program) -> Result<Self, RefError> {
+        let mut it = Interp {
+            prog,
+            genv: Env::empty(),
+            state: HashMap::new(),
+            now: 0,
+            samplerate: 48000.0,
+            steps: 0,
+            max_steps: 20_000_000,
+            flags: BTreeSet::new(),
+            touched: 0,
+        };
+        // global initialisation, in textual order
+        for (n, _t, e) in prog.pre_globals.iter().chain(prog.globals.iter()) {
+            let mut fr = Frame { path: vec![u32::MAX], self_val: None };
+            let env = it.genv.clone();
+            let v = it.eval(e, &env, &mut fr)?;
+            it.genv = it.genv.bind(n, v);
+        }
+        Ok(it)
+    }
+
+    fn f(&self, v: V) -> Result<f64, RefError> {
+        match v {
+            V::F(x) => Ok(x),
+            _ => Err(RefError::Internal("expected float".into())),
+        }
+    }
+
+    fn truth(&mut self, c: f64) -> bool {
+        if c.is_nan() {
+            self.flags.insert("nan_condition");
+        }
+        !(c <= 0.0)
+    }
+
+    fn call_named(&mut self, name: &str, args: Vec<(Option<String>, V)>, path: Vec<u32>) -> Result<V, RefError> {
+        let f = self.prog.find_fn(name).ok_or_else(|| RefError::Internal(format!("no fn {name}")))?;
+        let mut env = self.genv.clone();
+        let positional = args.iter().all(|a| a.0.is_none());
+        if positional {
+            if args.len() != f.params.len() {
+                return Err(RefError::Internal(format!("arity {name}")));
+            }
+            for (p, (_, v)) in f.params.iter().zip(args.into_iter()) {
+                env = env.bind(&p.name, v);
+            }
+        } else {
+            for p in &f.params {
+                let given = args.iter().find(|a| a.0.as_deref() == Some(p.name.as_str()));
+                let v = match (given, p.default) {
+                    (Some((_, v)), _) => v.clone(),
+                    (None, Some(d)) => V::F(d),
+                    (None, None) => return Err(RefError::Internal(format!("missing arg {}", p.name))),
+                };
+                env = env.bind(&p.name, v);
+            }
+        }
+        let mut key = path.clone();
+        key.push(0);
+        let self_val = match self.state.get(&key) {
+            Some(StCell::Feed(v)) => v.clone(),
+            _ => zero(&f.ret),
+        };
+        let mut fr = Frame { path, self_val: Some(self_val) };
+        let r = self.block(&f.body, &env, &mut fr)?;
+        if f.ret.is_data() {
+            self.state.insert(key, StCell::Feed(r.clone()));
+        }
+        Ok(r)
+    }
+
+    fn call_value(&mut self, f: V, args: Vec<V>, fr: &mut Frame) -> Result<V, RefError> {
+        match f {
+            V::Clo(c) => {
+                if c.params.len() != args.len() {
+                    return Err(RefError::Internal("closure arity".into()));
+                }
+                let mut env = c.env.clone();
+                for (p, v) in c.params.iter().zip(args.into_iter()) {
+                    env = env.bind(&p.name, v);
+                }
+                // lambdas are stateless by construction; they run in the caller's frame
+                let mut inner = Frame { path: fr.path.clone(), self_val: None };
+                self.block(&c.body, &env, &mut inner)
+            }
+            V::Fn(name) => {
+                let mut p = fr.path.clone();
+                p.push(u32::MAX - 1);
+                self.call_named(&name, args.into_iter().map(|v| (None, v)).collect(), p)
+            }
+            _ => Err(RefError::Internal("call of non-function".into())),
+        }
+    }
+
+    pub fn block(&mut self, b: &Block, env: &Env, fr: &mut Frame) -> Result<V, RefError> {
+        let mut env = env.clone();
+        for s in &b.stmts {
+            match s {
+                Stmt::Let(p, _, e) => {
+                    let v = self.eval(e, &env, fr)?;
+                    env = Self::bind_pat(p, v, env)?;
+                }
+                Stmt::Assign(n, e) => {
+                    let v = self.eval(e, &env, fr)?;
+                    let cell = env.lookup(n).ok_or_else(|| RefError::Internal(format!("assign to unbound {n}")))?;
+                    *cell.borrow_mut() = v;
+                }
+            }
+        }
+        self.eval(&b.result, &env, fr)
+    }
+
+    fn bind_pat(p: &Pat, v: V, env: Env) -> Result<Env, RefError> {
+        match (p, v) {
+            (Pat::Var(n), v) => Ok(env.bind(n, v)),
+            (Pat::Tup(ps), V::Tup(vs)) if ps.len() == vs.len() => {
+                let mut env = env;
+                for (p, v) in ps.iter().zip(vs.into_iter()) {
+                    env = Self::bind_pat(p, v, env)?;
+                }
+                Ok(env)
+            }
+            (Pat::Rec(fs), V::Rec(vs)) => {
+                let mut env = env;
+                for (f, b) in fs {
+                    let v = vs.iter().find(|(n, _)| n == f).ok_or_else(|| RefError::Internal("record pattern".into()))?;
+                    env = env.bind(b, v.1.clone());
+                }
+                Ok(env)
+            }
+            _ => Err(RefError::Internal("pattern mismatch".into())),
+        }
+    }
+
+    pub fn eval(&mut self, e: &E, env: &Env, fr: &mut Frame) -> Result<V, RefError> {
+        self.steps += 1;
+        if self.steps > self.max_steps {
+            return Err(RefError::Steps);
+        }
+        Ok(match e {
+            E::Num(v, _) => V::F(*v),
+            E::Var(n) => match env.lookup(n) {
+                Some(c) => c.borrow().clone(),
+                None => match self.genv.lookup(n) {
+                    Some(c) => c.borrow().clone(),
+                    None => return Err(RefError::Internal(format!("unbound {n}"))),
+                },
+            },
+            E::Bin(op, a, b) => {
+                let x = self.eval(a, env, fr)?;
+                let x = self.f(x)?;
+                let y = self.eval(b, env, fr)?;
+                let y = self.f(y)?;
+                let bf = |c: bool| if c { 1.0 } else { 0.0 };
+                V::F(match op {
+                    BinOp::Add => x + y,
+                    BinOp::Sub => x - y,
+                    BinOp::Mul => x * y,
+                    BinOp::Div => x / y,
+                    BinOp::Mod => {
+                        if x.fract() != 0.0 || y.fract() != 0.0 || !x.is_finite() || !y.is_finite() || y == 0.0 || x.abs() > 1e15 {
+                            self.flags.insert("modulo_non_integer_operand");
+                        }
+                        x % y
+                    }
+                    BinOp::Pow => x.powf(y),
+                    BinOp::Lt => bf(x < y),
+                    BinOp::Le => bf(x <= y),
+                    BinOp::Gt => bf(x > y),
+                    BinOp::Ge => bf(x >= y),
+                    BinOp::Eq => bf(x == y),
+                    BinOp::Ne => bf(x != y),
+                    BinOp::And | BinOp::Or => {
+                        if !(x >= 0.0) || !(y >= 0.0) {
+                            self.flags.insert("logic_on_negative_or_nan_operand");
+                        }
+                        if *op == BinOp::And { bf(x > 0.0 && y > 0.0) } else { bf(x > 0.0 || y > 0.0) }
+                    }
+                })
+            }
+            E::Neg(a) => {
+                // unary minus is defined by the language as `0.0 - x` (so -(+0.0) is +0.0)
+                let x = self.eval(a, env, fr)?;
+                V::F(0.0 - self.f(x)?)
+            }
+            E::Not(a) => {
+                let x = self.eval(a, env, fr)?;
+                let x = self.f(x)?;
+                // `not` is the builtin function x == 0 -> 1, else 0 (NaN -> 0)
+                V::F(if x == 0.0 { 1.0 } else { 0.0 })
+            }
+            E::Builtin(n, args) => {
+                let mut xs = vec![];
+                for a in args {
+                    let v = self.eval(a, env, fr)?;
+                    xs.push(self.f(v)?);
+                }
+                V::F(match (n.as_str(), xs.as_slice()) {
+                    ("sin", [x]) => x.sin(),
+                    ("cos", [x]) => x.cos(),
+                    ("abs", [x]) => x.abs(),
+                    ("sqrt", [x]) => x.sqrt(),
+                    ("floor", [x]) => x.floor(),
+                    ("ceil", [x]) => x.ceil(),
+                    ("round", [x]) => x.round(),
+                    ("tanh", [x]) => x.tanh(),
+                    ("atan", [x]) => x.atan(),
+                    ("log", [x]) => x.ln(),
+                    ("min", [x, y]) => x.min(*y),
+                    ("max", [x, y]) => x.max(*y),
+                    _ => return Err(RefError::Internal(format!("builtin {n}"))),
+                })
+            }
+            E::CallFn { name, args, style, site } => {
+                let mut path = fr.path.clone();
+                path.push(*site);
+                let mut vals = vec![];
+                match (style, args.first()) {
+                    (CallStyle::Positional, _) => {
+                        for a in args {
+                            vals.push((None, self.eval(a, env, fr)?));
+                        }
+                    }
+                    (_, Some(E::Record(fs))) => {
+                        for (n, a) in fs {
+                            vals.push((Some(n.clone()), self.eval(a, env, fr)?));
+                        }
+                        if fs.is_empty() {
+                            // all defaults: force the named-binding path
+                            vals.push((Some(String::new()), V::F(0.0)));
+                        }
+                    }
+                    _ => return Err(RefError::Internal("call style".into())),
+                }
+                self.call_named(name, vals, path)?
+            }
+            E::PipeFn { arg, name, site } => {
+                let mut path = fr.path.clone();
+                path.push(*site);
+                let v = self.eval(arg, env, fr)?;
+                self.call_named(name, vec![(None, v)], path)?
+            }
+            E::CallVal(f, args) => {
+                let fv = self.eval(f, env, fr)?;
+                let mut vals = vec![];
+                for a in args {
+                    vals.push(self.eval(a, env, fr)?);
+                }
+                self.call_value(fv, vals, fr)?
+            }
+            E::PipeVal(arg, f) => {
+                let v = self.eval(arg, env, fr)?;
+                let fv = self.eval(f, env, fr)?;
+                self.call_value(fv, vec![v], fr)?
+            }
+            E::If(c, a, b) => {
+                let cv = self.eval(c, env, fr)?;
+                let cv = self.f(cv)?;
+                if self.truth(cv) { self.eval(a, env, fr)? } else { self.eval(b, env, fr)? }
+            }
+            E::Tuple(es) => {
+                let mut vs = vec![];
+                for x in es {
+                    vs.push(self.eval(x, env, fr)?);
+                }
+                V::Tup(vs)
+            }
+            E::Proj(t, i) => match self.eval(t, env, fr)? {
+                V::Tup(vs) if *i < vs.len() => vs[*i].clone(),
+                _ => return Err(RefError::Internal("projection".into())),
+            },
+            E::Record(fs) => {
+                let mut vs = vec![];
+                for (n, x) in fs {
+                    vs.push((n.clone(), self.eval(x, env, fr)?));
+                }
+                V::Rec(vs)
+            }
+            E::Field(r, f) => match self.eval(r, env, fr)? {
+                V::Rec(vs) => vs.iter().find(|(n, _)| n == f).map(|x| x.1.clone()).ok_or_else(|| RefError::Internal("field".into()))?,
+                _ => return Err(RefError::Internal("field of non-record".into())),
+            },
+            E::Lambda(ps, body) => V::Clo(Rc::new(Clo { params: ps.clone(), body: (**body).clone(), env: env.clone() })),
+            E::FnRef(n) => V::Fn(n.clone()),
+            E::Block(b) => self.block(b, env, fr)?,
+            E::SelfE => fr.self_val.clone().ok_or_else(|| RefError::Internal("self outside function".into()))?,
+            E::Mem(a, site) => {
+                let v = self.eval(a, env, fr)?;
+                let v = self.f(v)?;
+                let mut key = fr.path.clone();
+                key.push(*site);
+                self.touched += 1;
+                let old = match self.state.insert(key, StCell::Mem(v)) {
+                    Some(StCell::Mem(o)) => o,
+                    _ => 0.0,
+                };
+                V::F(old)
+            }
+            E::Delay(n, x, t, site) => {
+                let xv = self.eval(x, env, fr)?;
+                let xv = self.f(xv)?;
+                let tv = self.eval(t, env, fr)?;
+                let tv = self.f(tv)?;
+                if !(tv >= 1.0 && tv <= (*n as f64 - 1.0)) {
+                    self.flags.insert("delay_time_outside_1_to_n_minus_1");
+                }
+                let d = tv.clamp(0.0, *n as f64 - 1.0).floor() as usize;
+                let mut key = fr.path.clone();
+                key.push(*site);
+                self.touched += 1;
+                let hist = match self.state.entry(key).or_insert_with(|| StCell::Delay(VecDeque::new())) {
+                    StCell::Delay(h) => h,
+                    _ => return Err(RefError::Internal("delay cell kind".into())),
+                };
+                // x from d samples earlier (d >= 1); d == 0 is outside the stated range
+                let res = if d == 0 {
+                    hist.get(*n as usize - 1).copied().unwrap_or(0.0)
+                } else {
+                    hist.get(d - 1).copied().unwrap_or(0.0)
+                };
+                hist.push_front(xv);
+                hist.truncate(*n as usize);
+                V::F(res)
+            }
+            E::Now => V::F(self.now as f64),
+            E::SampleRate => V::F(self.samplerate),
+        })
+    }
+
+    /// One dsp call; `input` are the dsp parameters' words.
+    pub fn tick(&mut self, input: &[f64]) -> Result<Vec<f64>, RefError> {
+        self.steps = 0;
+        let dsp = &self.prog.dsp;
+        let mut args = vec![];
+        let mut k = 0;
+        fn build(t: &Ty, input: &[f64], k: &mut usize) -> V {
+            match t {
+                Ty::F => {
+                    let v = input.get(*k).copied().unwrap_or(0.0);
+                    *k += 1;
+                    V::F(v)
+                }
+                Ty::Tup(ts) => V::Tup(ts.iter().map(|t| build(t, input, k)).collect()),
+                Ty::Rec(ts) => V::Rec(ts.iter().map(|(n, t)| (n.clone(), build(t, input, k))).collect()),
+                Ty::Fun(..) => V::F(0.0),
+            }
+        }
+        for p in &dsp.params {
+            args.push((None, build(&p.ty, input, &mut k)));
+        }
+        let r = self.call_named("dsp", args, vec![])?;
+        self.now += 1;
+        let mut out = vec![];
+        flatten(&r, &mut out);
+        Ok(out)
+    }
+}
+
+/// Run `n` samples; returns flattened [sample][channel] outputs and the flags tripped.
+pub fn run(prog: &Program, n: usize, input: &dyn Fn(usize, usize) -> f64) -> Result<(Vec<f64>, BTreeSet<&'static str>), RefError> {
+    let mut it = Interp::new(prog)?;
+    let ich: usize = prog.dsp.params.iter().map(|p| p.ty.words()).sum();
+    let mut out = vec![];
+    let mut inbuf = vec![0.0; ich];
+    for t in 0..n {
+        for c in 0..ich {
+            inbuf[c] = input(t, c);
+        }
+        out.extend(it.tick(&inbuf)?);
+    }
+    Ok((out, it.flags))
+}
